@@ -84,6 +84,27 @@ def sentences(ref: RG.Ref, per_nt, depth):
                                 yield (f"{name}/{ai}/{lab}", f"{t[1]}^{tok}", f"{name} alt {ai} {lab!r} with its {t[1]} starting with {tok}", sent)
 
 
+def keyword_spellings(ctx, rid):
+    """no spelling outside C99 6.4.1 / the documented C11 and extension keywords is a keyword (it would stop being an identifier), and each keyword has its own token type"""
+    t = S.tables()
+    lx = S.module("c_lexer")
+    ref = set(LM.C99_KEYWORDS) | set(LM.C11_KEYWORDS) | set(LM.EXT_KEYWORDS)
+    for sp in sorted(t.keyword_map):
+        ok = sp in ref
+        ctx.oblige(rid, f"keyword map entry {sp}", ok, nontrivial=False)
+        if not ok:
+            ctx.violation(rid, f"extra-keyword:{sp}", f"`{sp}` is in the lexer's keyword map (token type {t.keyword_map[sp]}) but is not a keyword of C99 6.4.1, C11 or a documented extension: it is an ordinary identifier in C and programs that use it as one are rejected",
+                          file=lx.rel, function="_keyword_map")
+    byval = {}
+    for sp, ty in t.keyword_map.items():
+        byval.setdefault(ty, []).append(sp)
+    for ty, sps in sorted(byval.items()):
+        ok = len(sps) == 1
+        ctx.oblige(rid, f"token type {ty} has one spelling", ok, nontrivial=False)
+        if not ok:
+            ctx.violation(rid, f"keyword-alias:{ty}", f"the spellings {sorted(sps)} all lex to the keyword token {ty}", file=lx.rel, function="_keyword_map")
+
+
 def check(ctx):
     ctx.rule("R-C01.1", "vocabulary: every C99 keyword / documented C11 keyword maps to a token type; every C99 punctuator is exactly one fixed token")
     ctx.rule("R-C01.2", "token-type closure: the parser only tests token types the lexer can emit; every emittable token type is consumed by some production")
@@ -98,6 +119,7 @@ def check(ctx):
         ctx.oblige("R-C01.1", f"keyword {kw}", ok, nontrivial=False)
         if not ok:
             ctx.violation("R-C01.1", f"keyword:{kw}", f"keyword `{kw}` is not in the lexer's keyword map: it would be lexed as an identifier and valid programs using it rejected", file=lx.rel, function="_keywords")
+    keyword_spellings(ctx, "R-C01.1")
     fixed = {}
     for tok_type, lit in t.fixed_tokens:
         fixed.setdefault(lit, []).append(tok_type)
